@@ -84,9 +84,12 @@ package server
 //@ func Server.writeAOF
 //@   assumed
 //@   requires [A1.log] lock == 2
-//@   modifies pending
+//@   modifies pending, s.aofbuf, s.aofsz, s.shrinklog, s.aofdirty, s.lstack
 //@   ensures (d == nil || d.updated) ==> !pending
 //@   ensures !(d == nil || d.updated) ==> pending == old(pending)
+// the size counter counts what is in the file plus what is buffered; without a log file nothing is buffered
+//@   ensures [counts-buffered] s.aofsz - len(s.aofbuf) == old(s.aofsz) - len(old(s.aofbuf)) && len(s.aofbuf) >= len(old(s.aofbuf))
+//@   ensures s.aof == nil ==> len(s.aofbuf) == len(old(s.aofbuf))
 
 // Server.command is the pure dispatcher: inside handleInputCommand it is inlined (so that every handler call is
 // checked against the lock and gate state); other callers see it as "one command executed".
@@ -96,11 +99,13 @@ package server
 //@   inline-in Server.handleInputCommand
 //@   frame-by-effects
 //@   requires msg != nil
-//@   modifies ndispatched, lastDispatched, pending
+//@   modifies ndispatched, lastDispatched
 //@   ensures ndispatched == old(ndispatched) + 1 && lastDispatched == old(msg.Args)
 // assumed (not proved): the commands the loader replays do not touch the log file or its size counter; only
 // MASSINSERT, AOF and AOFMD5 do, and those are never written to the log.
-//@   ensures [replay-leaves-log-alone] s.aofsz == old(s.aofsz)
+//@   ensures [replay-leaves-log-alone] s.aofsz == old(s.aofsz) && s.aof == old(s.aof) && s.aofbuf == old(s.aofbuf)
+// the dispatcher reads the command word (which caches its lower-case form) and hands copies to the handlers
+//@   ensures [msg-kept] len(old(msg.Args)) > 0 ==> msg.Args == old(msg.Args) && msg._command == lower(msg.Args[0])
 //@ func Server.handleInputCommand
 //@   lockcheck
 //@   requires s != nil && s.config != nil && client != nil && msg != nil && len(msg.Args) > 0 && msg._command == ""
@@ -157,7 +162,7 @@ package server
 //@   modifies nothing
 //@ func Server.loadAOF
 //@   requires s != nil && s.aof != nil && fpos == 0 && s.aofsz == 0 && ncomplete == ndispatched
-//@   modifies s.aofsz, fdata, fpos, ndispatched, lastDispatched, pending, ncomplete
+//@   modifies s.aofsz, fdata, fpos, ndispatched, lastDispatched, ncomplete
 //@   frame-by-effects
 //@   ensures [prefix] err == nil ==> len(fdata) <= len(old(fdata)) && fdata == old(fdata)[:len(fdata)]
 //@   ensures [size] err == nil ==> s.aofsz == len(fdata)
@@ -312,3 +317,101 @@ package server
 //@   requires s != nil && lock == 0 && !pending
 //@   modifies lock, pending, steps, ndispatched, lastDispatched, perCall
 //@   closure 1 invariant lock == 0 && !pending
+
+// ---- follower resume position (C06) -------------------------------------------------
+// followCheckSome decides from where the leader's log is streamed. On success the follower's log, its size counter
+// and its memory must all describe the same prefix, and that prefix must end exactly at the returned position:
+// otherwise the "caught up" comparison (own log size >= leader's log size) is meaningless.
+//@ func Server.matchChecksums
+//@   requires [window-in-log] 0 <= pos && size >= 0 && pos + size <= s.aofsz
+//@   modifies fpos
+// the nearest command end found by scanning backwards; it can lie after startPos when a command straddles it
+//@ func getEndOfLastValuePositionInFile
+//@   assumed
+//@   modifies fpos
+//@   ensures result1 == nil ==> 0 <= result0 && result0 <= len(fdata)
+//@ func Server.flushAOF
+//@   assumed
+//@   requires len(s.aofbuf) > 0 ==> s.aof != nil
+//@   modifies s.aofbuf, fdata, fpos
+//@   ensures len(s.aofbuf) == 0 && len(fdata) == len(old(fdata)) + len(old(s.aofbuf)) && fdata[:len(old(fdata))] == old(fdata)
+//@ ghost macro datasetEmpty(s) = *s.cols == emptyStrMap() && *s.hooks == emptyIntMap() && *s.hooksOut == emptyIntMap() && *s.groupHooks == emptyIntMap() && *s.groupObjects == emptyIntMap() && *s.hookExpires == emptyIntMap() && *s.hookTree == emptyBag() && *s.hookCross == emptyBag()
+//@ func Server.flushDB
+//@   frame-by-effects
+//@   requires s != nil && s.hooks != nil && s.hooksOut != nil && s.groupHooks != nil && s.groupObjects != nil && s.hookExpires != nil && s.hookTree != nil && s.hookCross != nil
+//@   ensures [dataset-empty] datasetEmpty(s)
+//@ func Server.reset
+//@   frame-by-effects
+//@   requires s != nil && s.hooks != nil && s.hooksOut != nil && s.groupHooks != nil && s.groupObjects != nil && s.hookExpires != nil && s.hookTree != nil && s.hookCross != nil
+//@   ensures [size-zero] s.aofsz == 0
+//@   ensures [dataset-empty] datasetEmpty(s)
+//@ ghost macro registriesNonNil(s) = s.hooks != nil && s.hooksOut != nil && s.groupHooks != nil && s.groupObjects != nil && s.hookExpires != nil && s.hookTree != nil && s.hookCross != nil
+//@ func Server.followResetAOF
+//@   frame-by-effects
+//@   requires s != nil && registriesNonNil(s)
+//@   modifies fdata, fpos
+//@   ensures [log-empty] result == nil ==> s.aofsz == 0 && (old(s.aof) != nil ==> len(fdata) == 0 && fpos == 0 && s.aof != nil) && (old(s.aof) == nil ==> s.aof == nil && fdata == old(fdata))
+//@   ensures [dataset-empty] result == nil ==> datasetEmpty(s)
+// After followCheckSome the follower's log file, its size counter and the position it asks the leader to stream from
+// are the same number, nothing is left in the write buffer, and whenever the log was cut the dataset was rebuilt from
+// exactly the bytes that were kept (reset, then loadAOF over the truncated file).
+//@ func Server.followCheckSome
+//@   lockcheck
+//@   locks-internally
+//@   internal-caller
+//@   frame-by-effects
+//@   requires s != nil && lock == 0 && !pending
+//@   after-lock s.aof != nil && registriesNonNil(s) && len(fdata) >= 0 && len(s.aofbuf) >= 0 && s.aofsz == len(fdata) + len(s.aofbuf) && fpos == len(fdata) && ncomplete == ndispatched
+//@   modifies lock, steps, ndispatched, lastDispatched, perCall, fdata, fpos, ncomplete
+//@   ensures [lock-balance] lock == 0
+//@   ensures [resume-at-log-end] err == nil ==> pos == s.aofsz
+//@   ensures [size-is-file-size] err == nil ==> s.aofsz == len(fdata)
+//@   loop 1 invariant lock == 2 && !pending
+//@   loop 1 invariant 0 <= min && min <= limit && limit <= s.aofsz && min >= 524288
+//@   loop 1 invariant s.aof != nil && registriesNonNil(s) && len(s.aofbuf) == 0 && s.aofsz == len(fdata)
+//@   loop 1 invariant ncomplete == ndispatched
+//@   loop 1 decreases limit - min
+
+// ---- caught-up flag: bit 2 = caught up now, bit 1 = caught up at least once (monotone) ----
+//@ func Server.setCaughtUp
+//@   requires s != nil
+//@   modifies s.fcupflags
+//@   ensures [now-bit] (bitand(s.fcupflags, 2) == 2) == caughtUp
+//@   ensures [once-bit-monotone] (bitand(s.fcupflags, 1) == 1) == (caughtUp || bitand(old(s.fcupflags), 1) == 1)
+//@   ensures [implies-once] bitand(s.fcupflags, 2) == 2 ==> bitand(s.fcupflags, 1) == 1
+//@ func Server.caughtUp
+//@   requires s != nil
+//@   modifies nothing
+//@   ensures result == (bitand(s.fcupflags, 2) == 2)
+// every streamed command is applied and appended to the follower's own log inside one exclusive critical section, and
+// the size handed back is the log size at that moment
+//@ func Server.followHandleCommand
+//@   lockcheck
+//@   locks-internally
+//@   internal-caller
+//@   frame-by-effects
+//@   requires s != nil && lock == 0 && !pending && len(args) > 0
+//@   after-lock s.aofsz >= 0 && (len(s.aofbuf) > 0 ==> s.aof != nil)
+//@   modifies lock, ndispatched, lastDispatched, fdata, fpos
+//@   ensures [lock-balance] lock == 0
+//@   ensures [returns-log-size] result0 == s.aofsz
+//@   at-call Server.command [A4.apply-under-lock] lock == 2
+//@   at-call Server.writeAOF [A4.log-under-lock] lock == 2
+// followStep: the caught-up bit is cleared before anything else happens on a (re)connect, and it is raised only when
+// the resume position (= the follower's log size, followCheckSome) or the log size after applying a streamed command
+// has reached the leader's log size reported on this connection.
+//@ func Server.followStep
+//@   lockcheck
+//@   internal-caller
+//@   frame-by-effects
+//@   requires s != nil && lock == 0 && !pending
+//@   after-lock s.aofsz >= 0 && (len(s.aofbuf) > 0 ==> s.aof != nil)
+//@   modifies lock, steps, ndispatched, lastDispatched, perCall, fdata, fpos, ncomplete
+//@   ensures [lock-balance] lock == 0
+// the leader streams the commands of its own log, none of which is empty
+//@   env-at-call Server.followHandleCommand len(arg0) > 0
+//@   at-call rwlocker.Unlock#1 [not-caught-up-while-reconnecting] bitand(s.fcupflags, 2) == 0
+//@   at-call Server.setCaughtUp#1 [cleared-first] !arg0
+//@   at-call Server.setCaughtUp#2 [justified-at-connect] arg0 ==> pos >= aofSize
+//@   at-call Server.setCaughtUp#3 [justified-by-log-size] arg0 ==> aofsz >= aofSize
+//@   loop 1 invariant lock == 0 && !pending
